@@ -602,6 +602,17 @@ func Run(r *hx.Run, replay []hx.Case) {
 			runOne(r, r.NewID(), s, off, 0, "failing-reader-sweep", true)
 		}
 	}
+	// 4b. long encoded lines: base64 / quoted-printable bodies whose lines exceed the 76 characters of RFC 2045
+	//     (unwrapped base64, joined lines, per-line padding, blanks and garbage inside; soft-break-free QP lines,
+	//     '=' at a line end, "=XY" across a join), in multipart body parts without Content-Disposition, in
+	//     attachment parts and as the body of a single-part message
+	nLong := 400
+	if thorough {
+		nLong = 10000
+	}
+	for i := 0; i < nLong && !r.Expired() && !hung; i++ {
+		runOne(r, r.NewID(), x.longLines(i), -1, 0, "long-lines", true)
+	}
 	// 5. arbitrary bytes
 	for i := 0; i < nBytes && !r.Expired() && !hung; i++ {
 		b := make([]byte, x.n(120))
@@ -654,4 +665,88 @@ func Run(r *hx.Run, replay []hx.Case) {
 
 func (x g) pick3() int {
 	return []int{0, 0, 1, 3, 64}[x.n(5)]
+}
+
+// b64line: n characters of valid base64 text (n rounded down to a multiple of 4), optionally padded
+func (x g) b64line(n int, pad bool) string {
+	const al = "ABCDEFGHIJKLMNOPQRSTUVWXYZabcdefghijklmnopqrstuvwxyz0123456789+/"
+	n -= n % 4
+	if n < 4 {
+		n = 4
+	}
+	b := make([]byte, n)
+	for i := range b {
+		b[i] = al[x.n(64)]
+	}
+	if pad {
+		b[n-1] = '='
+		if x.p(50) {
+			b[n-2] = '='
+		}
+	}
+	return string(b)
+}
+
+func (x g) longBody(enc string, i int) string {
+	var sb strings.Builder
+	if enc == "base64" {
+		lines := 1 + x.n(4)
+		for k := 0; k < lines; k++ {
+			var l string
+			switch (i + k) % 7 {
+			case 0:
+				l = x.b64line(77+x.n(124), false) // 77..200
+			case 1:
+				l = x.b64line(4096, false) // one very long unwrapped line
+			case 2:
+				l = x.b64line(76, false) + x.b64line(76, false) // two wrapped lines joined
+			case 3:
+				l = x.b64line(80+x.n(60), true) // padded per line
+			case 4:
+				l = x.b64line(40, false) + " " + x.b64line(60, false) // blank inside
+			case 5:
+				l = x.b64line(90, false) + "!*" + x.b64line(8, false) // garbage inside
+			default:
+				l = x.b64line(76, k == lines-1)
+			}
+			sb.WriteString(l)
+			if k < lines-1 || x.p(70) {
+				sb.WriteString(x.pick([]string{"\r\n", "\r\n", "\n"}))
+			}
+		}
+		return sb.String()
+	}
+	// quoted-printable
+	switch i % 5 {
+	case 0:
+		sb.WriteString(strings.Repeat("x", 2000) + "\r\n")
+	case 1:
+		sb.WriteString(strings.Repeat("ab=3Dc", 300) + "=\r\nnext\r\n")
+	case 2:
+		sb.WriteString(strings.Repeat("y", 100) + "=\r\n" + "3D" + strings.Repeat("z", 100) + "\r\n") // "=XY" across a join
+	case 3:
+		sb.WriteString(strings.Repeat("w", 500) + "=") // '=' at the very end
+	default:
+		sb.WriteString(strings.Repeat("=C3=A9", 400) + "\r\n" + strings.Repeat("q", 77) + "=\r\n")
+	}
+	return sb.String()
+}
+
+// longLines: messages whose encoded bodies have over-long lines
+func (x g) longLines(i int) []byte {
+	enc := []string{"base64", "base64", "quoted-printable"}[i%3]
+	body := x.longBody(enc, i/3)
+	var sb strings.Builder
+	sb.WriteString("From: a@x.test\r\nTo: b@x.test\r\nSubject: long lines\r\nMIME-Version: 1.0\r\n")
+	switch (i / 21) % 3 {
+	case 0: // single part
+		sb.WriteString("Content-Type: text/plain; charset=UTF-8\r\nContent-Transfer-Encoding: " + enc + "\r\n\r\n" + body)
+	case 1: // body part of a multipart (no Content-Disposition)
+		sb.WriteString("Content-Type: multipart/mixed; boundary=LL\r\n\r\n--LL\r\nContent-Type: text/plain; charset=UTF-8\r\nContent-Transfer-Encoding: " + enc +
+			"\r\n\r\n" + body + "\r\n--LL\r\nContent-Type: text/html; charset=UTF-8\r\nContent-Transfer-Encoding: " + enc + "\r\n\r\n" + x.longBody(enc, i+1) + "\r\n--LL--\r\n")
+	default: // nested alternative + attachment
+		sb.WriteString("Content-Type: multipart/mixed; boundary=LL\r\n\r\n--LL\r\nContent-Type: multipart/alternative; boundary=MM\r\n\r\n--MM\r\nContent-Type: text/plain; charset=UTF-8\r\nContent-Transfer-Encoding: " + enc +
+			"\r\n\r\n" + body + "\r\n--MM--\r\n\r\n--LL\r\nContent-Disposition: attachment; filename=\"a.bin\"\r\nContent-Type: application/octet-stream\r\nContent-Transfer-Encoding: " + enc + "\r\n\r\n" + x.longBody(enc, i+2) + "\r\n--LL--\r\n")
+	}
+	return []byte(sb.String())
 }
